@@ -276,10 +276,26 @@ def openReader (cols : List Col) (dc : Decomp) (file : Bytes) : R RState :=
         ({ cols := cols, dc := dc, src := { data := file, pos := 4 }, rows := f.numRows, pages := pages,
            rowGroups := f.rowGroups, bufs := List.replicate cols.length {} } : RState).readRowGroup
 
+/-- the loop of `Next()` that moves past row groups without rows: `for p.rowGroupCount == 0 &&
+len(p.rowGroups) > 0 { readRowGroup }`; every iteration consumes one row group, so `fuel =` the number of
+row groups left suffices -/
+def RState.skipEmpty : Nat → RState → R RState
+  | 0, st => .ok st
+  | fuel+1, st =>
+    if st.rgCount = 0 ∧ st.rowGroups ≠ [] then
+      match st.readRowGroup with
+      | .ok st' => skipEmpty fuel st'
+      | .error e => .error e
+    else .ok st
+
 /-- `Next()` -/
 def RState.next (st : RState) : R (Bool × RState) :=
   if !st.err ∧ st.cursor ≥ st.rows then .ok (false, st) else
-  let r := if st.rgCursor ≥ st.rgCount then st.readRowGroup else .ok st
+  let r := if st.rgCursor ≥ st.rgCount then
+      (match st.readRowGroup with
+       | .ok st' => st'.skipEmpty st'.rowGroups.length
+       | .error e => .error e)
+    else .ok st
   match r with
   | .error .panic => .error .panic
   | .error .err => .ok (false, { st with err := true })
